@@ -41,6 +41,7 @@ def replay(case):
 def run(tier):
     from ..xh import c07 as H
     run = Run('C07', tier)
+    run.exhaustive = False     # contains sampled parts (seeds / draw streams / a command table), see explanation
     run.explanation = (
         'Engine X, non-interference by self-composition. Each command line (41 of them over cnfgen, pbgen and cnfshuffle: every '
         'random formula family, every random graph construction and modifier - gnp, gnp t-partite, gnm, gnd, glrp, glrm on both sides '
